@@ -134,7 +134,15 @@ SEPS = [', ', ', ', ',', ' , ', ',  ', ' ,', ',\t']
 
 def join(rng, items):
     """A comma-separated cell in one of the spellings a user types: the documented ', ' or other blank use."""
-    return str(SEPS[int(rng.integers(len(SEPS)))]).join(items)
+    cell = str(SEPS[int(rng.integers(len(SEPS)))]).join(items)
+    r = rng.random()
+    if r < 0.15:
+        cell = cell + ' '            # a stray blank at the end / start of the whole cell
+    elif r < 0.3:
+        cell = ' ' + cell
+    elif r < 0.35:
+        cell = '  ' + cell + '\t'
+    return cell
 
 
 def experiment(rng, base_dir, n_inst=None, n_beads=None, n_samples=None, units_pool=UNITS, float_frac=0.3,
